@@ -105,6 +105,40 @@ def binding_agreement(ctx: Ctx) -> None:
                     n_fields += 1
                     if tgt.attr != v.id and tgt.attr in ps:
                         ctx.fail(f"{init.where}:{unparse(st)[:50]}", f"stores parameter `{v.id}` in the attribute named after parameter `{tgt.attr}`: the fields are swapped")
+        # a constructor parameter that the body never reads is a dropped field (`self.line = line` deleted: every position is line 0)
+        used = {n.id for n in ast.walk(init.node) if isinstance(n, ast.Name) and isinstance(n.ctx, ast.Load)}
+        for p_ in ps:
+            if p_ not in used and not p_.startswith("_"):
+                ctx.fail(f"{init.where}:parameter {p_}", f"the constructor never reads its parameter `{p_}`: the value the caller passes is dropped and the field keeps its default")
+    # the `kind` string an AST node class announces selects its code generator: the generator registered under that string must be
+    # the one written for this class (its first parameter is annotated with it)
+    from .const import NameRef, module_const
+
+    try:
+        gens = module_const(ctx.repo, "a816.parse.codegen", "generators")
+    except AnalysisError:
+        gens = None
+    if isinstance(gens, dict):
+        for ci in ctx.repo.all_classes():
+            init = ci.methods.get("__init__")
+            if init is None or ci.module.name != "a816.parse.ast.nodes" or not owned(prop, init.fq):
+                continue
+            kinds = [c.args[0].value for c in ast.walk(init.node) if isinstance(c, ast.Call) and unparse(c.func) == "super().__init__" and c.args
+                     and isinstance(c.args[0], ast.Constant) and isinstance(c.args[0].value, str)]
+            if len(kinds) != 1:
+                continue
+            g = gens.get(kinds[0])
+            if not isinstance(g, NameRef):
+                continue  # kinds without a generator (expression parts, ...) are consumed by their parents
+            gf = ctx.repo.try_func("a816.parse.codegen", g.name)
+            if gf is None or not gf.node.args.args or gf.node.args.args[0].annotation is None:
+                continue
+            ann = unparse(gf.node.args.args[0].annotation)
+            n_fields += 1
+            ok = ci.name in [a.strip() for a in ann.replace("|", ",").split(",")] or any(b.name in ann for b in ctx.repo.mro(ci)[1:] if b.name != "AstNode")
+            if not ok:
+                ctx.fail(f"{init.where}:kind {kinds[0]!r}", f"{ci.name} announces kind {kinds[0]!r}, whose generator {g.name} is written for {ann}: the directive is expanded "
+                         "by another directive's generator")
     ctx.count("bound_positional_arguments", n_args)
     ctx.count("constructor_fields", n_fields)
     if n_args + n_fields == 0:
